@@ -1,0 +1,64 @@
+//go:build verif
+
+package docker
+
+import (
+	"github.com/mutagen-io/mutagen/pkg/synchronization/core/ignore/docker/internal/third_party/patternmatcher"
+)
+
+// This file is only compiled with the "verif" build tag. It exposes the
+// unmodified upstream (moby) matching entry points of the vendored pattern
+// matcher to the external verification harness, which uses them as the
+// reference for Docker's .dockerignore semantics. No call site is changed.
+
+// VerifMatcher wraps a vendored upstream pattern matcher constructed exactly as
+// NewIgnorer constructs it (same cleaning and validation).
+type VerifMatcher struct {
+	pm *patternmatcher.PatternMatcher
+}
+
+// VerifMatchInfo is the upstream per-directory match record.
+type VerifMatchInfo = patternmatcher.MatchInfo
+
+// VerifNewMatcher creates a matcher from Docker-style ignore patterns.
+func VerifNewMatcher(patterns []string) (*VerifMatcher, error) {
+	pm, err := newValidatedPatternMatcher(patterns)
+	if err != nil {
+		return nil, err
+	}
+	return &VerifMatcher{pm}, nil
+}
+
+// MatchesOrParentMatches is upstream's PatternMatcher.MatchesOrParentMatches.
+func (m *VerifMatcher) MatchesOrParentMatches(path string) (bool, error) {
+	return m.pm.MatchesOrParentMatches(path)
+}
+
+// MatchesUsingParentResults is upstream's
+// PatternMatcher.MatchesUsingParentResults.
+func (m *VerifMatcher) MatchesUsingParentResults(path string, parent VerifMatchInfo) (bool, VerifMatchInfo, error) {
+	return m.pm.MatchesUsingParentResults(path, parent)
+}
+
+// MatchesUsingParentResult is upstream's (deprecated)
+// PatternMatcher.MatchesUsingParentResult; with a single pattern and
+// parentMatched == false it is that pattern's match of the path itself.
+func (m *VerifMatcher) MatchesUsingParentResult(path string, parentMatched bool) (bool, error) {
+	return m.pm.MatchesUsingParentResult(path, parentMatched)
+}
+
+// Exclusions is upstream's PatternMatcher.Exclusions.
+func (m *VerifMatcher) Exclusions() bool {
+	return m.pm.Exclusions()
+}
+
+// ExclusionPatterns returns the cleaned text of the exclusion ("!") patterns.
+func (m *VerifMatcher) ExclusionPatterns() []string {
+	var result []string
+	for _, p := range m.pm.Patterns() {
+		if p.Exclusion() {
+			result = append(result, p.String())
+		}
+	}
+	return result
+}
